@@ -7,7 +7,10 @@
      run "base"      packet* peof deliver* eof             no option
      run "skipA"     skipcb* packet* peof deliver* eof     skipper pi on the whole stream
      run "skipB"     packet* peof deliver* eof             no option, stream with the pi-packets deleted
-     run "parserObs" parsecb* deliver* eof                 parser returning skip=false
+     run "skipBR"    packet* peof deliver* eof             filtered stream read once, Rewind, then everything
+     run "skipRe"/"skipRa"  packet* peof deliver* eof      skipper: read once, Rewind, some calls, Rewind, then everything (explicit /
+                                                           auto-detected size); compared with skipBR (a Demuxer keeps its program map across Rewind)
+     run "parserObs" parsecb* deliver* eof parsekept       parser returning skip=false and keeping the slices it was handed
      run "parserRep" parsecb* deliver* eof                 parser returning skip=true and its own data
    Rules: skipcb sequence = spkt sequence (once per packet, in order, header and AF parsed);
    packets and data of skipA = those of skipB; observer parser leaves the output unchanged and is
@@ -41,6 +44,11 @@ OnEOF(s, e, i) ==
                             [na |-> Len(Q(s.P, "skipA")), nb |-> Len(Q(s.P, "skipB"))]))
          IN RepIf(Q(s.D, "skipA") # Q(s.D, "skipB"), s1, V("skipper-data-differ-from-filtered-stream", s0,
                             [na |-> Len(Q(s.D, "skipA")), nb |-> Len(Q(s.D, "skipB"))]))
+    [] e.run \in {"skipRe", "skipRa"} ->        \* skipper on the whole stream, some consumption, Rewind (explicit / auto-detected packet size)
+         LET s1 == RepIf(Q(s.P, e.run) # Q(s.P, "skipBR"), s0, V("skipper-packets-differ-from-filtered-stream-after-rewind", s0,
+                            [run |-> e.run, na |-> Len(Q(s.P, e.run)), nb |-> Len(Q(s.P, "skipBR"))]))
+         IN RepIf(Q(s.D, e.run) # Q(s.D, "skipBR"), s1, V("skipper-data-differ-from-filtered-stream-after-rewind", s0,
+                            [run |-> e.run, na |-> Len(Q(s.D, e.run)), nb |-> Len(Q(s.D, "skipBR"))]))
     [] e.run = "parserObs" ->
          LET s1 == RepIf(Q(s.D, "parserObs") # Q(s.D, "base"), s0, V("observer-parser-changes-output", s0,
                             [nobs |-> Len(Q(s.D, "parserObs")), nbase |-> Len(Q(s.D, "base"))]))
@@ -63,6 +71,7 @@ Step(s, e, i) ==
          ELSE [s EXCEPT !.D = SetFn(s.D, e.run, Append(Q(s.D, e.run), e.dg))]
     [] e.ev = "parsecb" -> IF e.run = "parserObs" THEN [s EXCEPT !.groups = Append(s.groups, e)] ELSE [s EXCEPT !.nrep = s.nrep + 1]
     [] e.ev = "eof" -> OnEOF(s, e, i)
+    [] e.ev = "parsekept" -> RepIf(e.changed # 0, s, V("unit-handed-to-parser-changed-afterwards", s, [groups |-> e.groups, changed |-> e.changed]))
     [] e.ev = "hang" -> Rep(s, V("no-end-of-stream", s, [run |-> e.run]))
     [] OTHER -> s
 
